@@ -12,6 +12,7 @@ every observable: schedule, ordered event list, per-node draws, final node state
 """
 import itertools
 import random
+import signal
 from importlib import import_module
 
 import logging
@@ -191,6 +192,17 @@ def node_state(algo, c):
     raise ValueError(algo)
 
 
+HANDLER_CPU_LIMIT = 20      # seconds of CPU time for ONE start() / on_message() call (normal: milliseconds)
+
+
+class HandlerTimeout(BaseException):
+    """not an Exception: must cross the netdriver's `except Exception` and the handlers' own try blocks"""
+
+
+def _on_cpu_alarm(signum, frame):
+    raise HandlerTimeout()
+
+
 def run_case(case, schedule=None):
     """Run the real computations.  schedule=None: seeded random schedule (policy of the case)."""
     import numpy
@@ -239,7 +251,11 @@ def run_case(case, schedule=None):
     def do(act):
         orc.cur = act[1] if act[0] != "D" else act[2]
         ne = len(drv.events)
-        real_do(act)
+        watchdog(HANDLER_CPU_LIMIT)
+        try:
+            real_do(act)
+        finally:
+            watchdog(0)
         for e in drv.events[ne:]:
             if e[0] == "raise":
                 events.append(["raise", vidx(e[1]), e[2], e[3]])
@@ -249,21 +265,54 @@ def run_case(case, schedule=None):
     random.choice, random.random, random.uniform = orc.choice, orc.random, orc.uniform
     numpy.random.choice = orc.choice
     numpy.random.randint = orc.randint
+    old_handler = None
     try:
-        if schedule is None:
+        old_handler = signal.signal(signal.SIGVTALRM, _on_cpu_alarm)
+    except (ValueError, OSError):      # not in the main thread: no watchdog
+        pass
+
+    def watchdog(seconds):
+        if old_handler is not None:
+            signal.setitimer(signal.ITIMER_VIRTUAL, seconds)
+    try:
+        if schedule is None and case.get("pauses"):
+            run_with_pauses(drv, rng, case.get("max_steps", 400), finished)
+        elif schedule is None:
             pol = case.get("policy", "uniform")
             drv.run_random(rng, max_steps=case.get("max_steps", 400), policy=pol)
         else:
             for a in schedule:
                 drv.do(a)
+    except HandlerTimeout:
+        # one start / on_message call used more than HANDLER_CPU_LIMIT s of CPU: a handler that loops for
+        # ever (seen with seeded changes that put MGM2 out of phase); reported like a raising handler
+        node = orc.cur
+        events.append(["raise", vidx(node) if node else -1, "HandlerTimeout",
+                       "no return after %ds of CPU" % HANDLER_CPU_LIMIT])
     finally:
+        watchdog(0)
+        if old_handler is not None:
+            signal.signal(signal.SIGVTALRM, old_handler)
         random.choice, random.random, random.uniform = saved
         numpy.random.choice, numpy.random.randint = np_saved
     chans = []
     for (s, d), ql in sorted(drv.chans.items()):
         if ql:
             chans.append([vidx(s), vidx(d), [msg_obs(m) for m in ql]])
-    sched = [[a[0]] + [vidx(x) for x in a[1:]] for a in drv.schedule]
+    # a pause is a stutter of the model: Pause / Resume and the deliveries handed to a paused computation
+    # (buffered by the real on_message, re-injected at the channel head by pause(False)) are not model actions
+    sched, sched_impl, paused_now = [], [], set()
+    for a in drv.schedule:
+        ai = [a[0]] + [vidx(x) for x in a[1:]]
+        sched_impl.append(ai)
+        if a[0] == "P":
+            paused_now.add(a[1])
+        elif a[0] == "R":
+            paused_now.discard(a[1])
+        elif a[0] == "D" and a[2] in paused_now:
+            pass
+        else:
+            sched.append(ai)
     nodes = {str(vidx(n)): node_state(algo, c) for n, c in comps.items()}
     nbrs = {str(vidx(n)): sorted(vidx(x if isinstance(x, str) else x.name) for x in
                                  (c._neighbors if algo != "dsa" else c.neighbors)) for n, c in comps.items()}
@@ -272,9 +321,39 @@ def run_case(case, schedule=None):
     if algo == "dsa":
         extra["fo_vc"] = probe_find_optimal_varcost()
     extra["gos"] = go_log
+    if len(sched_impl) != len(sched):
+        extra["sched_impl"] = sched_impl
     return dict(**extra, sched=sched, events=events, draws={str(vidx(k)): v for k, v in orc.draws.items()},
                 nodes=nodes, chans=chans, nbrs=nbrs, quiescent=1 if quiescent else 0,
                 finished={str(vidx(n)): k for n, k in finished.items()})
+
+
+def run_with_pauses(drv, rng, max_steps, finished):
+    """'startlate' schedule (deliveries preferred to starts, so late computations find a pre-start buffer)
+    with pause(True) / pause(False) of running, unfinished computations at random instants - what the
+    orchestrator does around scenario events.  Messages delivered to a paused computation are buffered by
+    the real on_message and re-injected (priority 19: channel head, in order) at resume.  Every computation
+    is resumed before the run is observed."""
+    steps = 0
+    while steps < max_steps:
+        acts = drv.enabled()
+        if not acts and not drv.paused:
+            break
+        cand = [n for n in drv.names if n in drv.started and n not in drv.paused and not finished[n]]
+        x = rng.random()
+        if drv.paused and (not acts or x < 0.12):
+            drv.do(["R", rng.choice(sorted(drv.paused))])
+        elif cand and x > 0.93:
+            drv.do(["P", rng.choice(cand)])
+        else:
+            d_acts = [a for a in acts if a[0] == "D"]
+            if d_acts and rng.random() < 0.85:
+                acts = d_acts
+            drv.do(rng.choice(acts))
+        steps += 1
+    for n in sorted(drv.paused):
+        drv.do(["R", n])
+    return steps
 
 
 # ------------------------------------------------------------------ generators shared by C07/C03/C04
@@ -639,6 +718,9 @@ def gen_cycle_cases(rng, n, algos, p_float=0.12):
                           max_steps=4000 if full else rng.randint(5, 120), full=1 if full else 0))
         if isf:
             cases[-1]["float"] = 1
+        if rng.random() < 0.15:
+            cases[-1]["pauses"] = 1      # startlate schedule with pause / resume (run_with_pauses)
+            cases[-1]["policy"] = "startlate+pauses"
     return cases
 
 
